@@ -76,7 +76,7 @@ func runC18(in *Sx) *Sx {
 	})
 	// a raw query string exactly as a client may send it (pieces that do not parse are dropped by net/url, the first
 	// well-formed value of the name counts)
-	var rawOut *Sx
+	var rawOut, rawList *Sx
 	if r := in.Field("raw"); r != nil {
 		name := r.Args()[1].Bytes()
 		f.Get("/rawq", func(c flamego.Context) {
@@ -86,6 +86,15 @@ func runC18(in *Sx) *Sx {
 				}
 			}()
 			rawOut = T("raw", X(c.Query(name, dstr...)), I64(c.QueryInt64(name, dint64...)), X(c.QueryTrim(name, dstr...)))
+			var dl [][]string
+			if len(dstr) > 0 {
+				dl = [][]string{{dstr[0], dstr[0]}}
+			}
+			var vs []*Sx
+			for _, v := range c.QueryStrings(name, dl...) { // every value of the name, in order
+				vs = append(vs, X(v))
+			}
+			rawList = T("rawl", vs...)
 		})
 	}
 	var got string
@@ -117,7 +126,7 @@ func runC18(in *Sx) *Sx {
 	if r := in.Field("raw"); r != nil && !panicked {
 		f.ServeHTTP(&wireWriter{hdr: http.Header{}}, &http.Request{Method: "GET", URL: &url.URL{Path: "/rawq", RawQuery: r.Args()[0].Bytes()}, Header: http.Header{}, Proto: "HTTP/1.1"})
 		if rawOut != nil {
-			out = append(out, rawOut)
+			out = append(out, rawOut, rawList)
 		}
 	}
 	if panicked {
